@@ -202,8 +202,56 @@ def body(ctx, conv, shape, bounds, layout, nan_cells=None, mesh_opts=None, mode=
             ctx.check(not ctx.symbolic, 'vector components with leftover dimensions are refused')
 
 
+def body_animate(ctx, conv):
+    """The animated collection (plot.animate_on_figure) shares the guarantees: one patch per cell with geometry, each
+    frame pairs every patch with its own cell's value, default colour limits span exactly the plotted values of all
+    frames.  Concrete data (real matplotlib artists are needed), with out-of-range values stored in the hole cells."""
+    import xarray
+    from matplotlib.figure import Figure
+    from emsarray import plot
+    from symx import builders
+    ny, nx, nt = 2, 3, 3
+    jj, ii = numpy.meshgrid(numpy.arange(ny, dtype=float), numpy.arange(nx, dtype=float), indexing='ij')
+    lat, lon = 10.0 + jj, 100.0 + ii
+    lonb = numpy.stack([lon - .5, lon + .5, lon + .5, lon - .5], axis=-1)
+    latb = numpy.stack([lat - .5, lat - .5, lat + .5, lat + .5], axis=-1)
+    holes = [(0, 1), (1, 2)]
+    for (j, i) in holes:
+        lonb[j, i] = numpy.nan
+        latb[j, i] = numpy.nan
+    vals = numpy.arange(nt * ny * nx, dtype=float).reshape(nt, ny, nx) * 1.5 + 3.0
+    for (j, i) in holes:
+        vals[:, j, i] = [-999.0, 999.0, 12345.0]         # sentinel values the model left in cells that are never drawn
+    build = builders.cf2d if conv == 'cf2d' else builders.shoc_simple
+    yd, xd = ('y', 'x') if conv == 'cf2d' else ('j', 'i')
+    ds = build(ny, nx, lat=lat, lon=lon, lat_bounds=latb, lon_bounds=lonb, data_vars={'temp': (('time', yd, xd), vals, {'units': 'degC'})})
+    ds = ds.assign_coords(time=(('time',), numpy.array(['2020-01-01', '2020-01-02', '2020-01-03'], dtype='datetime64[ns]')))
+    cv = ds.ems
+    present = [n for n, p in enumerate(cv.polygons) if p is not None]
+    ctx.check(present == [0, 2, 3, 4], 'harness: the two hole cells have no geometry')
+    figure = Figure()
+    anim = plot.animate_on_figure(figure, cv, coordinate=ds['time'], scalar=ds['temp'], coast=False, gridlines=False)
+    colls = [c for ax in figure.axes for c in ax.collections if hasattr(c, 'get_paths') and len(c.get_paths()) == len(present)]
+    ctx.check(len(colls) >= 1, 'one patch per cell that has geometry, none for holes')
+    if not colls:
+        return
+    coll = colls[0]
+    drawn = vals.reshape(nt, -1)[:, present]
+    lo, hi = coll.get_clim()
+    ctx.check(lo == drawn.min() and hi == drawn.max(), 'default colour limits span exactly the plotted values (all frames), not the values of cells that are never drawn')
+    for frame in range(nt):
+        anim._func(frame)
+        arr = numpy.asarray(coll.get_array())
+        ctx.check(arr.shape == (len(present),) and bool((arr == drawn[frame]).all()), "each frame gives every patch its own cell's value")
+    verts = [[tuple(p) for p in path.vertices] for path in coll.get_paths()]
+    ctx.check(all(pipeline.ring_matches(v[:-1] if len(v) == 5 else v, geo.poly_coords(cv.polygons[n])) for v, n in zip(verts, present)),
+              'patch k is the outline of the k-th cell with geometry, in linear order')
+
+
 def cases(tier):
     q = tier == 'quick'
+    for conv in ('cf2d', 'shoc_simple'):
+        yield Case(f'animate:{conv}', body_animate, dict(conv=conv), max_paths=3)
     cfgs = [('cf1d', (2, 3), 'none', ()), ('cf2d', (2, 2), 'stored', None), ('shoc_standard', (1, 2), 'none', None), ('shoc_simple', (2, 2), 'none', ((0, 0), (1, 1)))]
     if not q:
         cfgs += [('cf2d', (2, 3), 'stored', ((0, 1), (1, 2), (1, 0))), ('shoc_standard', (2, 2), 'none', ((0, 0), (1, 1), (2, 2))), ('cf1d', (3, 2), 'stored', ())]
